@@ -144,6 +144,10 @@ func (s *QUICSpec) dialCopy() *QUICSpec {
 			chs.Extensions[i] = &tls.KeyShareExtension{KeyShares: slices.Clone(ext.KeyShares)}
 		case *tls.QUICTransportParametersExtension:
 			chs.Extensions[i] = &tls.QUICTransportParametersExtension{TransportParameters: slices.Clone(ext.TransportParameters)}
+		case *tls.SNIExtension:
+			// uTLS writes the dial's tls.Config.ServerName into a server_name extension the
+			// spec left empty: the next dial with this spec value may name another host.
+			chs.Extensions[i] = &tls.SNIExtension{ServerName: ext.ServerName}
 		}
 	}
 	c.ClientHelloSpec = &chs
